@@ -328,12 +328,16 @@ fn run_schedules(rep: &Report, tier: Tier) {
     let slice = tier.pick(2.0f64, 60.0f64);
     for kind in [Kind::BatchSort, Kind::BatchVisualSort] {
         // (voting shards, max idle, batch variant, discipline, largest deviation bound)
-        let plan: Vec<(usize, usize, usize, usize, usize)> = vec![(2, 0, 1, 1, tier.pick(2, 4)), (2, 1, 1, 1, tier.pick(2, 4)), (2, 2, 1, 1, tier.pick(2, 4)), (2, 2, 0, 1, tier.pick(2, 4)), (1, 0, 4, 1, tier.pick(2, 4))];
+        let plan: Vec<(usize, usize, usize, usize, usize)> = vec![(2, 0, 1, 1, tier.pick(2, 4)), (2, 1, 1, 1, tier.pick(2, 4)), (2, 2, 1, 1, tier.pick(2, 4)), (2, 2, 0, 1, tier.pick(2, 4)), (1, 0, 4, 1, tier.pick(2, 4)), (2, 1, 8, 1, tier.pick(2, 4))];
         for (vs, max_idle, variant, discipline, max_bound) in plan {
             let mut cfg = TrkCfg::new(kind);
             cfg.shards = 1;
             cfg.voting_shards = vs;
             cfg.max_idle = max_idle;
+            if variant == 8 {
+                // expired tracks are collected at every submission, while the previous batch may still be voting
+                cfg.auto_waste = Some(0);
+            }
             let bs = super::c06::batches(variant);
             let c2 = cfg.clone();
             scen.push(super::c06::explore_batch(rep, "lifecycle", &cfg, variant, discipline, false, max_bound, slice, &|o| batch_lifecycle(o, &bs, &c2)));
@@ -355,7 +359,7 @@ fn run_schedules(rep: &Report, tier: Tier) {
 pub fn run(tier: Tier) -> Report {
     let rep = Report::new("C03", tier);
     let ls = lists();
-    rep.set_rule("every history of depth <= D over {predict(scene in {0,1}, [] | [P] | [Q] | [P,Q]), skip(0,1), skip(1,1), skip(0,2), wasted, clear_wasted, set_auto_waste(1)} with idle_tracks(both scenes), current epochs, active/wasted shard statistics and both store dumps observed after every step, on three instances with collection period 100 / 0 / 1 in lock-step; reference model: scene epochs, track -> (scene, last epoch, length, place). Sort at depth 4 (quick) / 5 (thorough) for max_idle 0,1,2 x shards 1,2 (quick: 2 shards only with max_idle 1); the other three trackers at depth 3 / 4. Schedule part (batch trackers, pipelined use: results retrieved by consumer threads while the next batch is submitted; 1-2 voting threads; max idle 0 / 1 / 2): every interleaving within a deviation bound of 2-3 multi-scene batches; the model is rebuilt from the records (which track each detection was recorded in) and compared with the epochs, idle tracks and expired tracks the tracker reports afterwards; no expired track continued, length = detections attached. Non-trivial = history with an expiry (a skip or an empty predict after a track exists).");
+    rep.set_rule("every history of depth <= D over {predict(scene in {0,1}, [] | [P] | [Q] | [P,Q]), skip(0,1), skip(1,1), skip(0,2), wasted, clear_wasted, set_auto_waste(1)} with idle_tracks(both scenes), current epochs, active/wasted shard statistics and both store dumps observed after every step, on three instances with collection period 100 / 0 / 1 in lock-step; reference model: scene epochs, track -> (scene, last epoch, length, place). Sort at depth 4 (quick) / 5 (thorough) for max_idle 0,1,2 x shards 1,2 (quick: 2 shards only with max_idle 1); the other three trackers at depth 3 / 4. Schedule part (batch trackers, pipelined use: results retrieved by consumer threads while the next batch is submitted; 1-2 voting threads; max idle 0 / 1 / 2, once with expired tracks collected at every submission): every interleaving within a deviation bound of 2-3 multi-scene batches; the model is rebuilt from the records (which track each detection was recorded in) and compared with the epochs, idle tracks and expired tracks the tracker reports afterwards; no expired track continued, length = detections attached. Non-trivial = history with an expiry (a skip or an empty predict after a track exists).");
     rep.assume("identical / disjoint boxes, so association is unambiguous; history part: sequential use under the default schedule; schedule part: bounded departures from the default schedule at named points");
     let mut total_h = 0u64;
     let mut total_s = 0u64;
